@@ -276,18 +276,18 @@ fn no_write<G>(_: &mut G, _: Option<i64>, _: Option<u64>) {
 }
 fn wr_fm<T: Tracked>(g: &mut FetchMut<'static, T>, p: Option<i64>, c: Option<u64>) {
     if let Some(p) = p {
-        g.set(p)
+        Probe::set(&mut **g, p)
     }
     if let Some(c) = c {
-        g.set_canary(c)
+        Probe::set_canary(&mut **g, c)
     }
 }
 fn wr_w<T: Tracked>(g: &mut Write<'static, T>, p: Option<i64>, c: Option<u64>) {
     if let Some(p) = p {
-        g.set(p)
+        Probe::set(&mut **g, p)
     }
     if let Some(c) = c {
-        g.set_canary(c)
+        Probe::set_canary(&mut **g, c)
     }
 }
 guard_impl!(Fetch, no_write, |s: &Fetch<'static, T>| Some(Box::new(s.clone()) as Box<dyn AnyGuard>));
